@@ -57,3 +57,19 @@ package main
 //@   ensures [minus-one-disables] v == "-1" ==> err == nil && *f.ttl == -1
 //@   ensures [duration] v != "-1" && err == nil ==> pdur_ok(v) && *f.ttl == pdur(v)
 //@   ensures [rejected] v != "-1" && !pdur_ok(v) ==> err != nil
+
+//@ spec func ctSrc(s string) string = split_i(s, ":", 0) + ":" + split_i(s, ":", 1)
+//@ spec func ctDst(s string) string = split_i(s, ":", 2) + ":" + split_i(s, ":", 3)
+
+//@ func (*connectToFlag).Set
+//@   property C19 C16
+//@   returns (err)
+//@   requires [non-nil] c != nil
+//@   modifies *c.addrMap, (*c.addrMap)[*], (*c.addrMap)[ctSrc(s)][cap]
+//@   ensures [no-map-no-op] c.addrMap == nil ==> err == nil
+//@   ensures [four-parts-required] c.addrMap != nil && split_n(s, ":") != 4 ==> err != nil
+//@   ensures [addresses-validated] c.addrMap != nil && split_n(s, ":") == 4 && (!hostport_ok(ctSrc(s)) || !hostport_ok(ctDst(s))) ==> err != nil
+//@   ensures [mapping-appended] c.addrMap != nil && err == nil ==> (forall k string :: k == ctSrc(s) ==>
+//@              len((*c.addrMap)[k]) == old(len((*c.addrMap)[k])) + 1 && (*c.addrMap)[k][len((*c.addrMap)[k])-1] == ctDst(s)
+//@              && (forall i int :: 0 <= i && i < old(len((*c.addrMap)[k])) ==> (*c.addrMap)[k][i] == old((*c.addrMap)[k][i])))
+//@   ensures [other-sources-untouched] c.addrMap != nil && old(*c.addrMap) != nil ==> (forall k string :: k != ctSrc(s) || err != nil ==> (*c.addrMap)[k] == old((*c.addrMap)[k]))
